@@ -4,7 +4,7 @@ input : <kind> <c0> <c1> <limit|-> <group 0|1> <having 0|1> <expr tokens | -> ; 
         kind ::= inner | left | right | full | leftOuter
         expr ::= c <op> <side> <col> <int> | cc <op> <c0> <c1> | n <side> <col> | & e e | | e e | ! e      (prefix)
         rows ::= row/row/...   row ::= v,v,v   v ::= <int> | N          (empty table: `.`)
-output: push0=<exprs> push1=<exprs> limit0=<n|-> semi=<0|1> uselimit=<0|1> | plan=<rows> | query=<rows>
+output: push0=<exprs> push1=<exprs> limit0=<n|-> semi=<0|1> | plan=<rows> | query=<rows> | sound=<planSound q>
         rows of the results: l-values,r-values per row, rows separated by `/` -/
 open MindsVerif.Sem
 
@@ -79,7 +79,7 @@ def handle (line : String) : String :=
         let p := plan q
         let se (es : List Expr) := "[" ++ "; ".intercalate (es.map showE) ++ "]"
         let lim0 := match p.limit0 with | none => "-" | some n => toString n
-        s!"push0={se p.push0} push1={se p.push1} limit0={lim0} semi={if p.semi1 then 1 else 0} | plan={showRows (execPlan p db)} | query={showRows (evalQuery q db)}"
+        s!"push0={se p.push0} push1={se p.push1} limit0={lim0} semi={if p.semi1 then 1 else 0} | plan={showRows (execPlan p db)} | query={showRows (evalQuery q db)} | sound={if planSound q then 1 else 0}"
       | _, _, _, _ => "bad-line"
     | _ => "bad-line"
   | _ => "bad-line"
